@@ -10,9 +10,29 @@
    functions of Formula.__neg__/__and__/__or__, convert_to_nnf, convert_to_dnf,
    ISLaSolver.establish_invariant, replace_formula, ensure_unique_bound_variables.
    The model mirrors /repo after the fix: commits 71bb9ab (convert_to_dnf iterates over whole
-   product combinations; formerly ValueError on conjunctions with != 2 arguments). *)
-From Coq Require Import List Bool.
-From ISLA Require Import Rewrite RewriteFacts.
+   product combinations; formerly ValueError on conjunctions with != 2 arguments).
+
+   Status.  FULL: neg, and, or, eq, split_*, nnf (+shape), dnf (soundness, totality, raise
+   characterisation), invariant_ok, replace.  Bound-variable renaming (proof extension, files
+   Logic/FreshFacts.v and Logic/RewriteMore.v):
+     * FULL for name-SENSITIVE interpretations (assignments keyed by the full variable
+       kind/name/type, `sem_of N`) on every formula outside the recorded class K_shadow:
+       C09_unique_name_sensitive_partial (guard = exactly K_shadow, refuted inside it by
+       C09_unique_shadow_refuted), C09_subst_capture_free (substitution lemma),
+       C09_fresh_name_free / C09_fresh_vars_fresh (the used_names threading yields fresh,
+       pairwise different names);
+     * for every name-INSENSITIVE interpretation on ALL formulas (incl. shadowing):
+       C09_unique_partial, C09_subst_partial (unchanged);
+     * uniqueness of the bound names of the result: C09_unique_spine (FULL for what the code
+       guarantees: no quantifier of the result re-binds a name bound by an enclosing quantifier or
+       contained in used_names - on every input, shadowing or not, without numeric quantifiers);
+       global uniqueness across SIBLING quantifiers is false: C09_unique_siblings_refuted.
+   STILL PARTIAL / OPEN: establish_invariant raises on API-built NegatedFormula(combinator)
+   inside an un-negated quantifier body (C09_invariant_refuted_not_nnf; not reachable from
+   parsed constraints); renaming inside K_shadow (refuted); totality of ensure_unique for the
+   fuel used by the harness is not stated (theorems assume `= Some`). *)
+From Coq Require Import List Bool NArith.
+From ISLA Require Import Rewrite RewriteFacts FreshFacts RewriteMore.
 Import ListNotations.
 
 (* ---- negation inverts the verdict ---- *)
@@ -133,8 +153,10 @@ Print Assumptions C09_replace.
    for every interpretation S (in particular name-sensitive ones).
    PARTIAL: proved for every interpretation that looks at variables only through their types
    (`name_insensitive`): substitute_variables / ensure_unique_bound_variables do nothing but
-   rename variables (type preserving) and re-assemble connectives with & and |.  Missing: the
-   capture-avoidance argument over the threading of `used_names` for formulas without shadowing. *)
+   rename variables (type preserving) and re-assemble connectives with & and |; this holds for
+   ALL formulas, also with shadowing.  The capture-avoidance argument over the threading of
+   `used_names` for name-sensitive interpretations and formulas without shadowing is
+   C09_unique_name_sensitive_partial below (proof extension). *)
 Theorem C09_unique_partial : forall A E (O : ops A) (S : sem A E),
   atoms_sound O S -> name_insensitive O S ->
   forall fuel (f : formula A) used g u, Unique O fuel f used = Some (g, u) ->
@@ -169,3 +191,109 @@ Print Assumptions C09_unique_shadow_refuted.
 Example C09_atoms_sound_nonvacuous : atoms_sound cops csem.
 Proof. exact atoms_sound_csem. Qed.
 Print Assumptions C09_atoms_sound_nonvacuous.
+
+(* ================= proof extension: capture avoidance for name-sensitive interpretations ======== *)
+(* Reading guide.  `N : nsem A D` is an interpretation whose states are assignments var -> D keyed
+   by the FULL variable (kind, name, type): atoms are denoted under the assignment, predicate
+   formulas see the values of their arguments, a tree quantifier binds value tuples positionally to
+   its own variables `q_bound v m` (lexical scoping), the tuples depend on the value of the
+   in-variable, the type of v and the kinds/types of the match-expression elements.
+   `sem_of N` is the corresponding `sem`, so `ev (sem_of N)` is the same specification `ev` as above.
+   `atoms_rename O N afv` are the premises about the abstract atoms: `afv a` = free variables of the
+   z3 formula (coincidence), z3 substitution = composition of the assignment with the renaming, free
+   variables are mapped along the renaming, true/false have none. *)
+
+(* (2) the index search of fresh_vars always ends on a name that is not in used_names ... *)
+Theorem C09_fresh_name_free : forall p used,
+  mem_str (idx_name p (first_free (S (length used)) p used 0%N)) used = false.
+Proof. exact first_free_fresh. Qed.
+Print Assumptions C09_fresh_name_free.
+
+(* ... and fresh_vars returns a renaming of exactly the given variables whose images are kept or are
+   plain BoundVariables of the same type, carry pairwise different names, none of them in
+   used_names; the caller's set afterwards is used_names plus exactly these names *)
+Theorem C09_fresh_vars_fresh : forall orig used rho u, fresh_vars orig used = (rho, u) ->
+  map fst rho = orig /\
+  u = rev (img_names rho) ++ used /\
+  Forall pair_ok rho /\
+  NoDup (img_names rho) /\
+  (forall n, In n (img_names rho) -> ~ In n used).
+Proof. exact fresh_vars_spec. Qed.
+Print Assumptions C09_fresh_vars_fresh.
+
+(* (1) substitution lemma: a renaming that keeps kinds and types, leaves the bound variables of f
+   alone and maps no other variable onto one of them (capture freedom) acts on the verdict as
+   composition of the assignment: substitute_variables is sound for NAME-SENSITIVE interpretations *)
+Theorem C09_subst_capture_free : forall A D (O : ops A) (N : nsem A D) (afv : A -> list var),
+  atoms_sound O (sem_of N) -> atoms_rename O N afv ->
+  forall rho, kt_preserving (lookup rho) ->
+  forall f : formula A,
+  (forall w, In w (bvars A f) -> lookup rho w = w) ->
+  (forall z, In (lookup rho z) (bvars A f) -> lookup rho z = z) ->
+  forall e e', (forall x, In x (fv afv f) -> e' x = e (lookup rho x)) ->
+  ev (sem_of N) e (Subst O rho f) = ev (sem_of N) e' f.
+Proof. exact subst_ev. Qed.
+Print Assumptions C09_subst_capture_free.
+
+Example C09_subst_capture_free_nonvacuous :
+  let rho := [(v_x, v_z)] in let f : cform := FForall v_y (InVar v_x) None (y_is v_y 97) in
+  kt_preserving (lookup rho) /\
+  (forall w, In w (bvars catom f) -> lookup rho w = w) /\
+  (forall z, In (lookup rho z) (bvars catom f) -> lookup rho z = z) /\
+  Subst cops_t rho f <> f.
+Proof. exact subst_ev_nonvacuous. Qed.
+Print Assumptions C09_subst_capture_free_nonvacuous.
+
+(* (3) FULL STATEMENT (false inside K_shadow, see C09_unique_shadow_refuted):
+     ensure_unique_bound_variables(f, used_names) has the verdict of f in every state.
+   PARTIAL with guard = exactly the recorded class: for every formula WITHOUT shadowing
+   (`K_shadow bound f = false`: no quantifier of f binds a name of `bound` or re-binds a name bound
+   by an enclosing quantifier), whose free plain bound variables have their names in `bound`
+   (`scoped`), `bound` being part of used_names, and whose quantifiers bind BoundVariables.
+   For closed formulas take bound = used = [] (the call of parse_isla / ISLaSolver). *)
+Theorem C09_unique_name_sensitive_partial :
+  forall A D (O : ops A) (N : nsem A D) (afv : A -> list var),
+  atoms_sound O (sem_of N) -> atoms_rename O N afv ->
+  forall fuel (f : formula A) used g u, Unique O fuel f used = Some (g, u) ->
+  forall bound, K_shadow bound f = false -> scoped afv bound f -> binders_bound f -> incl bound used ->
+  forall e, ev (sem_of N) e g = ev (sem_of N) e f.
+Proof. exact rename_sound. Qed.
+Print Assumptions C09_unique_name_sensitive_partial.
+
+(* non-vacuity: a concrete name-sensitive interpretation satisfies both premises, and
+   (forall x in start: (forall y in x: y="a") and (forall y in x: y="b")) and forall y_0 in start: y_0="c"
+   satisfies the hypotheses with bound = used = [] and IS changed by the renaming *)
+Example C09_unique_name_sensitive_nonvacuous :
+  atoms_sound cops_t (sem_of cnsem) /\ atoms_rename cops_t cnsem cafv /\
+  K_shadow [] w_sibling = false /\ scoped cafv [] w_sibling /\ binders_bound w_sibling /\
+  exists g u, Unique cops_t 40 w_sibling [] = Some (g, u) /\ g <> w_sibling.
+Proof. exact rename_sound_nonvacuous. Qed.
+Print Assumptions C09_unique_name_sensitive_nonvacuous.
+
+(* ---- uniqueness of the bound names of the result ---- *)
+(* What the code guarantees (on EVERY input without numeric quantifiers, shadowing or not): in the
+   result no quantifier binds a name of used_names, and no quantifier re-binds a name bound by an
+   enclosing quantifier - bound names are unique along every nesting chain (quantifier spine). *)
+Theorem C09_unique_spine : forall A (O : ops A) fuel (f : formula A) used g u,
+  Unique O fuel f used = Some (g, u) ->
+  no_int_quant f = true -> binders_bound f -> K_shadow used g = false.
+Proof. exact unique_spine. Qed.
+Print Assumptions C09_unique_spine.
+
+Example C09_unique_spine_nonvacuous :
+  no_int_quant w_shadow = true /\ binders_bound w_shadow /\ K_shadow [] w_shadow = true /\
+  exists g u, Unique cops 20 w_shadow [] = Some (g, u) /\ K_shadow [] g = false.
+Proof. exact unique_spine_nonvacuous. Qed.
+Print Assumptions C09_unique_spine_nonvacuous.
+
+(* FULL STATEMENT (false): all quantifiers of the result bind pairwise different names
+   (`bound_unique g = true`).  Refutation, on input without shadowing:
+   (forall x in start: (forall y in x: A) and (forall y in x: B)) and forall y_0 in start: C
+   -> the second y becomes y_0 inside the first conjunct, but that choice is not propagated to
+   the caller's used_names, so the sibling `forall y_0` keeps its name: y_0 is bound twice.
+   Reproduced on ensure_unique_bound_variables of /repo (design_notes/C09.md). *)
+Theorem C09_unique_siblings_refuted : exists (f g : cform) u,
+  K_shadow [] f = false /\ no_int_quant f = true /\
+  Unique cops_t 40 f [] = Some (g, u) /\ bound_unique g = false.
+Proof. exact unique_siblings_refuted. Qed.
+Print Assumptions C09_unique_siblings_refuted.
